@@ -2,6 +2,7 @@ package c06
 
 import (
 	"context"
+	"encoding/json"
 	"database/sql"
 	"errors"
 	"fmt"
@@ -12,6 +13,7 @@ import (
 
 	"github.com/zeromicro/go-zero/core/collection"
 	"github.com/zeromicro/go-zero/core/logx"
+	"github.com/zeromicro/go-zero/core/stat"
 	"github.com/zeromicro/go-zero/core/stores/cache"
 	"github.com/zeromicro/go-zero/core/stores/redis"
 	"github.com/zeromicro/go-zero/core/stores/sqlc"
@@ -35,8 +37,18 @@ import (
 // still generated but only counted, not reported.
 var masked = map[string]bool{}
 
+// development aid: VERIF_C06_DEBUG=1 prints every run's history to stderr
+var debugOps = os.Getenv("VERIF_C06_DEBUG") != ""
+
 func init() {
 	logx.Disable()
+	// stat.Report (called by the redis breaker when it drops a request and by the cleaner when it
+	// gives up) rate-limits through a process-global LessExecutor keyed on timex.Now(): whether the
+	// first report of a run passes or is discarded depends on earlier runs of the same process, and
+	// the limiter lives in an instrumented package (one scheduling point more or less).  go-zero
+	// switches the reporter off under `go test` itself (flag test.v), but that look-up runs at package
+	// init, before the testing flags exist; do what it intends.
+	stat.SetReporter(nil)
 	for _, c := range strings.Split(os.Getenv("VERIF_C06_MASK"), ",") {
 		if c = strings.TrimSpace(c); c != "" {
 			masked[c] = true
@@ -101,6 +113,7 @@ type entity struct {
 	dirtyRet     time.Time // return instant of the last such invalidation
 	cleanerMaybe int       // invalidations after which a cleaner task may be pending
 	cleanerDone  int       // cleaner DELs on this row's keys that the server executed
+	hasDeadline  bool
 }
 
 func (e *entity) keys() []string { return []string{e.pkey, e.ikey} }
@@ -219,7 +232,7 @@ type step struct {
 	// runtime
 	pre        [2]snap // primary key, index key
 	tinv, tret time.Time
-	cinv       int
+	cinv, cret int
 	err        error
 	execs      []*qexec
 	rules      []*rule
@@ -244,6 +257,7 @@ type rule struct {
 type delExec struct {
 	key     string
 	at      time.Time
+	clk     int
 	harness bool
 }
 
@@ -276,6 +290,8 @@ type world struct {
 	htask  map[int]bool
 	faults []time.Time // instants of injected store failures (for the breaker estimate)
 	lastFault time.Time
+	down       simredis.Kind // store outage in force: every command (handshakes excepted) fails this way
+	start      time.Time
 	aborted   bool
 	ops       []string
 }
@@ -324,6 +340,9 @@ func (w *world) query(st *step, c *call, kind int, v any) (any, error) {
 	}
 	w.gauge[key]--
 	x.e, x.te, x.done = w.tick(), time.Now(), true
+	if debugOps {
+		w.ops = append(w.ops, fmt.Sprintf("    query %d of call %d done seq=%d tape=%d t=%v", x.id, c.id, w.r.Seq(), w.t.Pos(), w.r.Elapsed()))
+	}
 	switch {
 	case failing:
 		w.nErr++
@@ -356,6 +375,9 @@ func toInt(v any) (int64, bool) {
 		return int64(n), true
 	case float64:
 		return int64(n), float64(int64(n)) == n
+	case json.Number: // go-zero's jsonx decodes numbers of an `any` destination this way
+		i, err := n.Int64()
+		return i, err == nil
 	}
 	return 0, false
 }
@@ -492,8 +514,15 @@ func (ru *rule) matches(c *simredis.Cmd) bool {
 }
 
 func (w *world) faultFn(c *simredis.Cmd) simredis.Fault {
-	if c.Handshake() || len(w.rules) == 0 {
+	if debugOps {
+		w.ops = append(w.ops, fmt.Sprintf("    send %v task=%d conn=%d seq=%d tape=%d t=%v", c.Args, c.Task, c.Conn, w.r.Seq(), w.t.Pos(), w.r.Elapsed()))
+	}
+	if c.Handshake() {
 		return simredis.Fault{}
+	}
+	if w.down != simredis.None {
+		w.noteFault()
+		return simredis.Fault{Kind: w.down, Msg: "ERR injected store failure"}
 	}
 	now := time.Now()
 	for _, ru := range w.rules {
@@ -550,14 +579,17 @@ func (w *world) onExec(e *simredis.Exec) {
 	}
 	name := e.Cmd.Name()
 	w.r.Ev("exec:"+name, int64(len(e.Cmd.Args)))
+	if debugOps {
+		w.ops = append(w.ops, fmt.Sprintf("    exec %v task=%d conn=%d fault=%v seq=%d tape=%d t=%v", e.Cmd.Args, e.Cmd.Task, e.Cmd.Conn, e.Fault, w.r.Seq(), w.t.Pos(), w.r.Elapsed()))
+	}
 	if name != "DEL" {
 		return
 	}
 	h := w.isHarness(e.Cmd.Task)
-	now := time.Now()
+	now, clk := time.Now(), w.tick()
 	seen := map[*entity]bool{}
 	for _, k := range e.Cmd.Args[1:] {
-		w.dels = append(w.dels, delExec{key: k, at: now, harness: h})
+		w.dels = append(w.dels, delExec{key: k, at: now, clk: clk, harness: h})
 		ent := w.byKey[k]
 		if ent == nil || seen[ent] {
 			continue
@@ -603,7 +635,7 @@ var nfExpiries = []time.Duration{5 * time.Second, time.Second, 2 * time.Second, 
 
 func newWorld(r *simrt.Run, tier string) *world {
 	t := r.Tape
-	w := &world{r: r, t: t, tier: tier, byKey: map[string]*entity{}, gauge: map[string]int{}, htask: map[int]bool{}}
+	w := &world{r: r, t: t, tier: tier, start: time.Now(), byKey: map[string]*entity{}, gauge: map[string]int{}, htask: map[int]bool{}}
 	// the cleaner's wheel and task runner are package globals: rebuild them on this run's clock
 	w.tw = cache.VerifResetCleaner()
 	w.srv = simredis.New(r)
@@ -644,7 +676,7 @@ func newWorld(r *simrt.Run, tier string) *world {
 		w.cc = sqlc.NewConnWithCache(w.conn, w.cache)
 	case 1:
 		w.errNF = sqlc.ErrNotFound
-		w.cc = sqlc.NewNodeConn(w.conn, rds, opts...)
+		w.cc = sqlc.NewConnWithCache(w.conn, cache.NewNode(rds, syncx.NewSingleFlight(), &cache.Stat{}, sqlc.ErrNotFound, opts...))
 	default:
 		// cache.New with a one-node cluster configuration.  It builds its own redis.Redis from the
 		// configuration (no way to pass a hook), so the go-redis client for this address is created
@@ -653,7 +685,7 @@ func newWorld(r *simrt.Run, tier string) *world {
 		if !rds.Ping() {
 			r.EngineError("c06: cannot reach the simulated redis")
 		}
-		conf := cache.CacheConf{{RedisConf: redis.RedisConf{Host: w.srv.Addr, Type: redis.NodeType, NonBlock: t.Bool()}, Weight: 100}}
+		conf := cache.CacheConf{{RedisConf: redis.RedisConf{Host: w.srv.Addr, Type: redis.NodeType, NonBlock: t.Bool(), PingTimeout: time.Minute}, Weight: 100}}
 		w.cc = sqlc.NewConn(w.conn, conf, opts...)
 	}
 	r.MarkBackground(func(name string) bool {
@@ -677,7 +709,7 @@ func newWorld(r *simrt.Run, tier string) *world {
 }
 
 func (w *world) close() {
-	w.srv.SetDown(false)
+	w.down = simredis.None
 	w.rules = nil
 	w.tw.Stop()
 }
@@ -880,13 +912,18 @@ func (w *world) item() {
 	}
 }
 
-// outage: the store is unreachable while one or two operations run, and for a while longer.
+// outage: the store is unusable while one or two operations run, and for a while longer.  The
+// outage is realised on established connections (every command is reset while it is sent, or
+// vanishes without a reply, or is answered with an error) and not by refusing dials: go-redis
+// counts failed dials per client and after PoolSize (10 x GOMAXPROCS, not configurable through
+// go-zero) of them starts a re-dial goroutine of its own, which makes the behaviour depend on
+// GOMAXPROCS and is not a task of the simulation.
 func (w *world) outage() {
 	t := w.t
 	n := t.Range(1, 2)
-	w.ops = append(w.ops, "store down")
-	w.srv.SetDown(true)
-	w.noteFault()
+	kind := []simredis.Kind{simredis.ResetBefore, simredis.ResetBefore, simredis.ErrReply, simredis.DropRequest}[t.Intn(4)]
+	w.ops = append(w.ops, "store down ("+kind.String()+" on every command)")
+	w.down = kind
 	for i := 0; i < n && !w.aborted; i++ {
 		st := w.genStep(w.ents[t.Intn(len(w.ents))], true)
 		st.fault, st.faultExt = fNone, 0
@@ -898,7 +935,7 @@ func (w *world) outage() {
 		w.r.Sleep(ext)
 	}
 	w.noteFault()
-	w.srv.SetDown(false)
+	w.down = simredis.None
 	w.ops = append(w.ops, fmt.Sprintf("store up after %v more", ext))
 	w.r.Probe("store-outage")
 }
@@ -977,6 +1014,9 @@ func (w *world) prepare(st *step) {
 	case fLatency:
 		w.addRule(st, &rule{keys: keys, kind: simredis.Latency, harness: true, delay: time.Duration(w.t.Range(1, 400)) * time.Millisecond})
 	}
+	if debugOps {
+		w.ops = append(w.ops, fmt.Sprintf("@step %d tape %d t=%v", w.r.Seq(), w.t.Pos(), w.r.Elapsed()))
+	}
 	w.ops = append(w.ops, st.String())
 	if w.r.Tracing() {
 		w.r.Logf("STEP %s | db ver=%d | pre P=%+v I=%+v dirty=%v pending=%v", st, ent.ver, st.pre[0], st.pre[1], st.dirtyPre, st.pendPre)
@@ -1000,6 +1040,9 @@ func (w *world) launch(st *step) []*simrt.Task {
 				w.doRead(st, c)
 				c.ret, c.tret, c.returned = w.tick(), time.Now(), true
 				w.r.Ev("return", int64(c.id), int64(c.out), int64(c.got.Ver))
+				if debugOps {
+					w.ops = append(w.ops, fmt.Sprintf("    return call %d err=%v seq=%d tape=%d t=%v", c.id, c.err, w.r.Seq(), w.t.Pos(), w.r.Elapsed()))
+				}
 			})
 			w.htask[tk.ID] = true
 			ts = append(ts, tk)
@@ -1011,7 +1054,7 @@ func (w *world) launch(st *step) []*simrt.Task {
 		w.r.Ev("invoke-w", int64(st.kind), int64(ent.idx))
 		w.doWrite(st)
 		st.tret = time.Now()
-		w.tick()
+		st.cret = w.tick()
 		ok := int64(0)
 		if st.err != nil {
 			ok = 1
@@ -1061,6 +1104,9 @@ func body(r *simrt.Run, tier string) {
 	w.finish()
 	r.Probe("oracle")
 	r.Probe("nontrivial")
+	if debugOps {
+		fmt.Fprintf(os.Stderr, "C06 run: variant=%d faulty=%v e=%v nfe=%v elapsed=%v execs=%d\n  %s\n", w.variant, w.faulty, w.e, w.nfe, r.Elapsed(), w.srv.Executed(), strings.Join(w.ops, "\n  "))
+	}
 	ents := ""
 	for _, e := range w.ents {
 		ents += fmt.Sprintf("row%d:%v ", e.idx, e.hist)
@@ -1074,6 +1120,9 @@ func config(t *simrt.Tape, tier string) simrt.Config {
 	c := simharness.DefaultConfig(t, tier)
 	c.MaxSteps = 1500000
 	c.MaxVirtual = 400 * time.Hour
+	if os.Getenv("VERIF_C06_ALLSWITCH") != "" {
+		c.SwitchPerMille, c.StallPerMille = 999, 0 // development aid: every scheduling point shows up in the trace
+	}
 	return c
 }
 
